@@ -297,7 +297,7 @@ def run(repo: Repo, rep: Report, tier: str) -> None:
         fq = f"service_class.ServiceClass.{nm}"
         blocks = [w for w in attempt_blocks(fn) if classify_block(w, dimse_events) == "handler-exception"]
         rep.check(len(blocks) == 1 and block_status(blocks[0]) == 0x0110, "n-service", fq, f"handler exception -> {hex(block_status(blocks[0])) if blocks and block_status(blocks[0]) is not None else '?'}", "a DIMSE-N handler exception is documented to be answered with 0x0110 (Processing failure)", mod=sc, node=blocks[0] if blocks else fn)
-        for c in [c for c in walk_no_nested(fn) if isinstance(c, ast.Call) and isinstance(c.func, ast.Name) and c.func.id == "encode"]:
+        for c, _d in encode_sites(repo, fn):
             st = enclosing(c, (ast.stmt,))
             v = norm(st.targets[0]) if isinstance(st, ast.Assign) else None
             ifs = [i for i in walk_no_nested(fn) if isinstance(i, ast.If) and v and norm(i.test) in (f"{v} is not None", f"{v} is None")]
@@ -317,9 +317,11 @@ def run(repo: Repo, rep: Report, tier: str) -> None:
         unpack = [s for s in walk_no_nested(fn) if isinstance(s, ast.Assign) and isinstance(s.targets[0], ast.Tuple) and len(s.targets[0].elts) == 2 and norm(strip_cast(s.value)) in ("user_response", "result")]
         rep.need(len(unpack) == 1, f"{fq}: handler result unpacking not found")
         dsv = norm(unpack[0].targets[0].elts[1])
-        encs = [c for c in walk_no_nested(fn) if isinstance(c, ast.Call) and isinstance(c.func, ast.Name) and c.func.id == "encode"]
-        rep.need(len(encs) == 1, f"{fq}: expected one encode call")
-        rep.check(norm(strip_cast(encs[0].args[0])) == dsv, "data-flow", fq, enclosing(encs[0], (ast.stmt,)), f"the encoded object must be the data set the handler supplied ({dsv})", mod=sc, node=encs[0])
+        encs = encode_sites(repo, fn)
+        rep.need(len(encs) == 1, f"{fq}: expected one encode call (directly or through one helper method), found {len(encs)}")
+        enc_call, enc_data = encs[0]
+        rep.check(enc_data is not None and norm(strip_cast(enc_data)) == dsv, "data-flow", fq, enclosing(enc_call, (ast.stmt,)), f"the encoded object must be the data set the handler supplied ({dsv})", mod=sc, node=enc_call)
+        encs = [enc_call]
         ev = norm(enclosing(encs[0], (ast.stmt,)).targets[0])
         sets = [s for s in walk_no_nested(fn) if isinstance(s, ast.Assign) and norm(s.targets[0]) == f"rsp.{attr}" and not (isinstance(s.value, ast.Constant) and s.value.value is None)]
         ok = len(sets) == 1 and norm(sets[0].value) == f"BytesIO({ev})"
@@ -332,6 +334,41 @@ def run(repo: Repo, rep: Report, tier: str) -> None:
         muts = [s for s in walk_no_nested(fn) if isinstance(s, ast.Assign) and norm(s.targets[0]) == dsv and s is not unpack[0] and not (isinstance(s.value, ast.Constant) and s.value.value is None) and norm(strip_cast(s.value)) != dsv]
         rep.check(not muts, "data-flow", fq, muts[0] if muts else f"{dsv} only bound from the handler result", "the handler's data set is replaced before it is encoded", mod=sc, node=muts[0] if muts else fn)
     check_handler_dataset_replacement(repo, rep)
+    from ..delegate import delegate
+    rep.rule("reply-syntax", "every encode / decode of a data set takes all three flags (implicit VR, byte order, deflated) from one transfer-syntax object (C25's codec-flags rule)")
+    delegate(repo, rep, tier, "C25", ("codec-flags",), "reply-syntax", "the data set the handler supplied reaches the peer in a different encoding than the context's transfer syntax (e.g. not deflated on a Deflated context): the peer cannot read the reply's data set although the status says Success")
+
+
+def encode_sites(repo: Repo, fn: ast.AST) -> list[tuple[ast.Call, ast.AST | None]]:
+    """where `fn` encodes a data set: direct `encode(x, ..)` calls, and calls `self.<helper>(..)` of a
+    ServiceClass method that itself does nothing but one `encode(<its parameter>, ..)` (the 'encode the
+    reply' helper a refactor may introduce). -> [(call in fn, the expression of fn that is encoded)]"""
+    out = []
+    ci = repo.cls("service_class", "ServiceClass")
+    for c in walk_no_nested(fn):
+        if not isinstance(c, ast.Call):
+            continue
+        if isinstance(c.func, ast.Name) and c.func.id == "encode" and c.args:
+            out.append((c, c.args[0]))
+        elif isinstance(c.func, ast.Attribute) and norm(c.func.value) == "self":
+            _, h = repo.lookup_method(ci, c.func.attr, "method")
+            if h is None or h is fn:
+                continue
+            inner = [x for x in walk_no_nested(h) if isinstance(x, ast.Call) and isinstance(x.func, ast.Name) and x.func.id == "encode" and x.args]
+            if len(inner) != 1:
+                continue
+            params = [a.arg for a in h.args.args][1:]
+            src = strip_cast(inner[0].args[0])
+            data = None
+            if isinstance(src, ast.Name) and src.id in params:
+                k = params.index(src.id)
+                if k < len(c.args):
+                    data = c.args[k]
+                else:
+                    kw = [x.value for x in c.keywords if x.arg == src.id]
+                    data = kw[0] if kw else None
+            out.append((c, data))
+    return out
 
 
 def check_handler_dataset_replacement(repo: Repo, rep: Report) -> None:
